@@ -50,7 +50,9 @@ EXTRA6 = {
         "SRC_loops_as_specified (failing mount / limit entries are reported with their index).",
  "C08": SRC + "SRC_loops_as_specified - one prlimit64 per configured limit, in the order of the list, with the entry's resource and value; a refused limit is reported as LocSetRlimit with the index of the entry and the program never runs.",
  "C16": SRC + "C16_source_issues_specified_calls - a traced child asks for SIGKILL on the death of the launching thread (PR_SET_PDEATHSIG) and looks whether the launcher is gone already "
-        "(getppid, except in a new pid namespace), after its privileges are dropped and before it syncs, stops or attaches, for every option combination of the domains above.",
+        "(getppid, except in a new pid namespace), after its privileges are dropped and before it syncs, stops or attaches, for every option combination of the domains above.  Launch/ChildSeqDeath.v, "
+        "for EVERY combination of the 21 options with a tracer (no bound): C16_spec_arms_after_ids_before_gate - in that specification the request is made exactly once, nothing before it waits for "
+        "the launcher or the tracer or runs the program, nothing after it changes the ids (which would clear it): the order ArmLate for which C16_traced_launch_dies_with_tracer is proved.",
 }
 # additions of the sixth round of seeded changes
 EXTRA7 = {
